@@ -43,6 +43,12 @@ def finish(ctx, behs):
         if v['v'].startswith('ORACLE'):
             from common import MachineryError
             raise MachineryError('spec inconsistency ' + v['v'])
+        if any(c['op'] in ('add_node', 'add_edge', 'label_add', 'relabel') for c in b['calls'][:ev['i'] + 1]):
+            # growth beyond the property: once a history has used an inherited mutator the structure is no longer "a
+            # constructed structure" in C14's sense; the as-coded model of the mutators is a diagnostic binding only
+            ctx.extra['mutator_model_drift'] = ctx.extra.get('mutator_model_drift', 0) + 1
+            ctx.log('mutator model drift (diagnostic only): %s at step %d of %s' % (v['v'], ev['i'], json.dumps(b['calls'])[:300]))
+            continue
         ctx.violation('%s: %s at step %d of history %s (outcome %s, projection %s)' % (
             b.get('family', ''), v['v'], ev['i'], json.dumps(b['calls'])[:500], json.dumps(ev['out'])[:150], json.dumps(ev['pool'])[:300]),
             {'behaviour': b, 'event': ev, 'verdict': v})
